@@ -12,6 +12,8 @@ A sidecar is a list of sections introduced by `=== <kind> ...` lines:
         spec:                                  indented block: requires/ensures/decreases put between signature and body
         loop <n>:                              indented block: invariant/decreases put on the n-th loop header (source order)
         loopsub <n>: /regex/ => repl           rewrite of the n-th loop header (e.g. naming the ghost iterator, R12)
+        params: <names>                        the parameter names the contract was written with, in signature order (without self): if the
+                                               code renames a parameter the contract text follows (a rename is not a reason to be undecided)
         arm: <regex>                           R19: lift ONE match arm `<pattern matching regex> => { BLOCK }` of the function into a function
         armfn: <fn header>                     of its own: header as given (the enclosing bindings the arm uses become parameters),
         armtail: <expr>                        body = BLOCK verbatim followed by <expr> (what the code after the match evaluates to)
@@ -74,7 +76,7 @@ def _parse_sub(txt, path, ln):
 
 def _parse_opts(sec, path):
     o = {'rules': [], 'subs': [], 'sigsubs': [], 'ret': None, 'attrs': [], 'spec': [], 'loops': {}, 'loopsubs': {}, 'loopiters': {},
-         'keep': None, 'impl': None, 'arm': None, 'armfn': None, 'armtail': 'Ok(())'}
+         'keep': None, 'impl': None, 'arm': None, 'armfn': None, 'armtail': 'Ok(())', 'params': None}
     for a in sec.args[2:] if sec.kind == 'fn' else sec.args[3:]:
         if a.startswith('impl='):
             o['impl'] = a[5:]
@@ -104,6 +106,8 @@ def _parse_opts(sec, path):
             o['sigsubs'].append(_parse_sub(val, path, ln))
         elif key == 'ret':
             o['ret'] = val
+        elif key == 'params':
+            o['params'] = val.split()
         elif key in ('arm', 'armfn', 'armtail'):
             o[key] = val
         elif key == 'attrs':
@@ -194,6 +198,39 @@ def _apply_rules(text, opts, log, what):
     return text
 
 
+def _param_names(header):
+    """names of the parameters of a fn header, in order, without self"""
+    hm = mask(header)
+    par = hm.find('(', hm.find('fn '))
+    end = match_brace(hm, par)
+    inner = header[par + 1:end]
+    parts, depth, last = [], 0, 0
+    im = mask(inner)
+    for i, ch in enumerate(im):
+        if ch in '([{<':
+            depth += 1
+        elif ch in ')]}>' and not (ch == '>' and i > 0 and im[i - 1] == '-'):
+            depth -= 1
+        elif ch == ',' and depth == 0:
+            parts.append(inner[last:i])
+            last = i + 1
+    parts.append(inner[last:])
+    names = []
+    for p in parts:
+        p = p.strip()
+        if not p or re.match(r'(&\s*(\'\w+\s+)?)?(mut\s+)?self\b', p):
+            continue
+        m = re.match(r'(?:mut\s+)?([A-Za-z_]\w*)\s*:', p)
+        names.append(m.group(1) if m else '?')
+    return names
+
+
+def _rename_words(text, renames):
+    for a, b in renames.items():
+        text = re.sub(r'(?<![A-Za-z0-9_.])%s(?![A-Za-z0-9_])' % re.escape(a), b, text)
+    return text
+
+
 def _keep_lines(old, new):
     """pad `new` with newlines so it spans as many lines as `old` (keeps the line map of the fn body)"""
     d = old.count('\n') - new.count('\n')
@@ -271,6 +308,13 @@ def gen_fn(g, repo, sec, mode):
         if n == 0:
             raise GenError('%s: sigsub /%s/ matched nothing' % (what, pat))
         log.append(('SIG', '/%s/ => %s' % (pat, rep)))
+    renames = {}
+    if o['params'] is not None and not o['arm']:
+        actual = _param_names(header)
+        if len(actual) == len(o['params']):
+            renames = dict((a, b) for a, b in zip(o['params'], actual) if a != b)
+            if renames:
+                log.append(('RP', 'parameters renamed in the code, contract text follows: %s' % ', '.join('%s -> %s' % kv for kv in renames.items())))
     if o['ret'] and mode == 'verus':
         hm = mask(header)
         arrow = hm.rfind('->')
@@ -320,7 +364,7 @@ def gen_fn(g, repo, sec, mode):
                     raise GenError('%s: loopsub %d /%s/ matched nothing' % (what, idx, pat))
                 log.append(('R12', 'loop %d header: /%s/ => %s' % (idx, pat, rep)))
                 hdr = hdr2
-            inv = _dedent_block(o['loops'][idx]) if idx in o['loops'] else ''
+            inv = _rename_words(_dedent_block(o['loops'][idx]), renames) if idx in o['loops'] else ''
         else:
             inv = ''
         body_chunks.append(('code', body[br:tail_pos]))
@@ -337,7 +381,7 @@ def gen_fn(g, repo, sec, mode):
             g.emit(a, kind='attr', fn=name)
     g.emit(header, kind='sig', fn=name, file=relfile, line=line0)
     if mode == 'verus' and o['spec']:
-        spec = _dedent_block(o['spec'])
+        spec = _rename_words(_dedent_block(o['spec']), renames)
         for l in spec.split('\n'):
             g.emit('    ' + l, kind='spec', fn=name, clause=l.strip())
             if l.strip() and not l.strip().startswith('//') and l.strip() not in ('requires', 'ensures', 'decreases', 'invariant'):
